@@ -79,7 +79,7 @@ pub fn replay_case(case: &Value, ctx: &Ctx) -> Result<Vec<Violation>, String> {
         "C10" => Ok(props::c10::replay(case)),
         "C11" => Ok(props::c11::replay(case)),
         "C12" => Ok(props::c12::replay(case)),
-        "C13" => Ok(props::c13::replay(case)),
+        "C13" => Ok(props::c13::replay(case, ctx)),
         "C14" => Ok(props::c14::replay(case, ctx)),
         "C15" => Ok(props::c15::replay(case, ctx)),
         "C16" => Ok(props::c16::replay(case, ctx)),
